@@ -631,6 +631,28 @@ func c18Body(rc *RunCtx) {
 					continue
 				}
 			}
+			if !doWB && simrt.ChanceF(1, 8) {
+				// the application overrides values in memory through the public interface
+				// (ApplyDefault re-installs the built-in defaults, ApplyConfig sets given keys);
+				// the edit that follows must make every key=value of the file visible again,
+				// also those lines that the edit leaves as they were
+				simrt.Fault("application_overrides_in_memory")
+				c18BuiltinDefaults(d)
+				if ac, ok := cfg.(interface{ ApplyConfig(map[string]string) }); ok && simrt.ChanceF(1, 2) {
+					over := map[string]string{}
+					for i, it := range d.cur {
+						if it.Kind == "kv" && simrt.ChanceF(1, 2) {
+							v := "ov" + strconv.Itoa(e) + "x" + strconv.Itoa(i)
+							over[it.Key] = v
+							d.ever[it.Key][v] = true
+						}
+					}
+					ac.ApplyConfig(over)
+				} else {
+					cfg.ApplyDefault()
+				}
+				simrt.Sleep(time.Duration([]int{0, 1, 200, 3100}[simrt.ChooseF(4)]) * time.Millisecond)
+			}
 			next := c18GenFile(d.cur)
 			d.cur = next
 			d.Versions = append(d.Versions, next)
